@@ -511,6 +511,10 @@ func c10(r *mon.Run) {
 			addName(f[:1] + ext)
 		}
 	}
+	// names that other implementations, proposals and common sense would give a function: none of them is one of the 26
+	for _, n := range strings.Fields("split upper lower trim trim_left trim_right replace items from_items to_items zip group_by find_first find_last pad_left pad_right unique uniq distinct flatten first last head tail range slice substring substr sum_by count size len now env match regex regex_match regex_replace to_object to_bool to_boolean is_null default coalesce if concat format printf lookup get has has_key contains_any index_of insert remove delete filter reduce fold select pluck pick omit entries from_entries let parse_json to_json from_json json_parse json_serialize encode decode base64 md5 sha1 uuid random mod pow sqrt round trunc negate add sub mul div product median mode stddev min_max cumsum diff char_at repeat title capitalize snake_case camel_case words lines chars explode implode strip length_of keys_of values_of sort_desc reverse_sort rsort order_by top bottom limit offset take drop chunk window pairs transpose set_union union intersect difference exclude compact clean to_list to_map to_set to_int to_float int float str string number bool array object typeof type_of is_array is_string is_number exists empty not_empty any all none some every between in_range clamp") {
+		addName(n)
+	}
 	for _, n := range []string{strings.Repeat("a", 15), strings.Repeat("a", 16), strings.Repeat("a", 17), strings.Repeat("m", 32), strings.Repeat("s", 33), strings.Repeat("t", 255), strings.Repeat("k", 256), strings.Repeat("n", 1000), "x", "xx", strings.Repeat("x", 16), strings.Repeat("_", 16), "A", strings.Repeat("Z", 20)} {
 		addName(n)
 	}
